@@ -30,6 +30,8 @@ var whatwgNonDataBody = map[string]bool{
 //
 // findOpaqueBodyTable locates the transition function of the tag state and the name table whose
 // lookup guards the switch to the opaque-body state.
+var opaqueScope []*ssa.Function // the tag function and the helpers it calls (set by findOpaqueBodyTable)
+
 func findOpaqueBodyTable(p *Program, r *Report, rule string) (*ssa.Function, *ssa.Global) {
 	tpk := p.Pkg("template")
 	stObj := tpk.Types.Scope().Lookup("state")
@@ -58,9 +60,34 @@ func findOpaqueBodyTable(p *Program, r *Report, rule string) (*ssa.Function, *ss
 		r.Undec(rule, "template.transitionFunc[stateTag]", "", "anchor not found")
 		return nil, nil
 	}
-	// the table whose lookup guards a store of the opaque-body state
+	// the table whose lookup guards a store of the opaque-body state (in the tag function or in a helper it calls)
 	var tables []*ssa.Global
-	for _, b := range tagFn.Blocks {
+	scope := []*ssa.Function{tagFn}
+	for i := 0; i < len(scope) && i < 12; i++ {
+		for _, b := range scope[i].Blocks {
+			for _, in := range b.Instrs {
+				if cl, ok := in.(*ssa.Call); ok {
+					if g := staticCallee(cl.Common()); g != nil && g.Pkg == tagFn.Pkg && g.Blocks != nil {
+						dup := false
+						for _, x := range scope {
+							if x == g {
+								dup = true
+							}
+						}
+						if !dup {
+							scope = append(scope, g)
+						}
+					}
+				}
+			}
+		}
+	}
+	opaqueScope = scope
+	var allBlocks []*ssa.BasicBlock
+	for _, g := range scope {
+		allBlocks = append(allBlocks, g.Blocks...)
+	}
+	for _, b := range allBlocks {
 		for _, in := range b.Instrs {
 			lk, ok := in.(*ssa.Lookup)
 			if !ok {
@@ -78,7 +105,7 @@ func findOpaqueBodyTable(p *Program, r *Report, rule string) (*ssa.Function, *ss
 			if !ok || iff.Cond != ssa.Value(lk) {
 				continue
 			}
-			for _, d := range tagFn.Blocks {
+			for _, d := range b.Parent().Blocks {
 				if !edgeDominates(b, b.Succs[0], d) {
 					continue
 				}
@@ -191,7 +218,11 @@ func checkConditionalNamesBodyKind(p *Program, r *Report, rule string) {
 		return found
 	}
 	var nameLk, namesLk []*ssa.Lookup
-	for _, b := range tagFn.Blocks {
+	var scopeBlocks []*ssa.BasicBlock
+	for _, g := range opaqueScope {
+		scopeBlocks = append(scopeBlocks, g.Blocks...)
+	}
+	for _, b := range scopeBlocks {
 		for _, in := range b.Instrs {
 			lk, ok := in.(*ssa.Lookup)
 			if !ok {
@@ -216,7 +247,7 @@ func checkConditionalNamesBodyKind(p *Program, r *Report, rule string) {
 	}
 	// a disagreement must lead to an error context: some comparison of a names lookup with a name lookup
 	cmp := false
-	for _, b := range tagFn.Blocks {
+	for _, b := range scopeBlocks {
 		for _, in := range b.Instrs {
 			bo, ok := in.(*ssa.BinOp)
 			if !ok {
